@@ -153,7 +153,34 @@ def run_case(case):
         options['maxStatements'] = case['max']
     if case.get('debug'):
         options['debug'] = True
+    fetched = []
+    if 'files' in case:
+        files = case['files']
+
+        def fetch_fn(request):
+            fetched.append(request['url'])
+            text = files.get(request['url'])
+            if isinstance(text, dict):          # {'raise': ...}: a throwing fetch function
+                raise OSError(text.get('raise', 'fetch failed'))
+            return text
+        options['fetchFn'] = fetch_fn
+    if 'systemPrefix' in case:
+        options['systemPrefix'] = case['systemPrefix']
     res = {}
+    if case.get('want_model'):
+        sys.path.insert(0, __import__('os').path.dirname(__file__))
+        from parse_script import cstmt   # noqa: E402  (same canonical form as the parse_script worker)
+        try:
+            res['model'] = [cstmt(s) for s in parse_script(case['text'])['statements']]
+        except Exception as exc:  # pylint: disable=broad-except
+            res['model_error'] = type(exc).__name__
+        res['file_models'] = {}
+        for url, text in case.get('files', {}).items():
+            if isinstance(text, str):
+                try:
+                    res['file_models'][url] = [cstmt(s) for s in parse_script(text)['statements']]
+                except Exception as exc:  # pylint: disable=broad-except
+                    res['file_models'][url] = {'error': type(exc).__name__}
     try:
         if 'expr' in case or 'expr_text' in case:
             expr = uncanon_expr(case['expr']) if 'expr' in case else parse_expression(case['expr_text'])
@@ -180,6 +207,7 @@ def run_case(case):
     res['log'] = [str(x) for x in log]
     res['globals'] = visible_globals(globals_)
     res['count'] = options.get('statementCount')
+    res['fetched'] = fetched
     return res
 
 
